@@ -17,8 +17,15 @@ from typing import List, Tuple, get_args
 from sympy import Symbol
 from sympy.logic.boolalg import Boolean
 
-from ..types import TType, TypeErrorException
-from . import Binding, Env, decompose_to_symbols, exceptions, translate_expression
+from ..types import QintImp, Qtype, TExp, TType, TypeErrorException
+from . import (
+    Binding,
+    Env,
+    decompose_to_symbols,
+    exceptions,
+    translate_argument,
+    translate_expression,
+)
 
 
 def _flatten_exp(vexp):
@@ -36,6 +43,47 @@ def _nest_as_type(bits, ttype):
     if hasattr(ttype, "BIT_SIZE"):
         return [bits.pop(0) for _ in range(ttype.BIT_SIZE)]
     return [_nest_as_type(bits, t) for t in get_args(ttype)]
+
+
+def _typed_value(value, ttype: TType, env: Env) -> TExp:
+    """Translate the value of a typed assignment `x: ttype = value` as a ttype"""
+    targs = get_args(ttype)
+
+    # A tuple of values, element by element
+    if isinstance(value, ast.Tuple) and 0 < len(targs) == len(value.elts):
+        elts = [_typed_value(e, t, env)[1] for e, t in zip(value.elts, targs)]
+        return (ttype, elts)
+
+    # A constant of a Qtype: the typecast ttype(value)
+    if (
+        isinstance(value, ast.Constant)
+        and not isinstance(value.value, bool)
+        and isinstance(ttype, type)
+        and issubclass(ttype, Qtype)
+    ):
+        if (
+            issubclass(ttype, QintImp)
+            and isinstance(value.value, int)
+            and not 0 <= value.value < 2**ttype.BIT_SIZE
+        ):
+            raise TypeErrorException(type(value.value), ttype)
+        return ttype.const(value.value)  # type: ignore
+
+    tval = translate_expression(value, env)
+    if tval[0] == ttype:
+        return tval
+
+    # A narrower Qint is extended
+    if (
+        isinstance(ttype, type)
+        and issubclass(ttype, QintImp)
+        and isinstance(tval[0], type)
+        and issubclass(tval[0], QintImp)
+        and tval[0].BIT_SIZE < ttype.BIT_SIZE
+    ):
+        return ttype.fill(tval)
+
+    raise TypeErrorException(tval[0], ttype)
 
 
 def translate_statement(  # noqa: C901
@@ -59,20 +107,31 @@ def translate_statement(  # noqa: C901
 
         raise exceptions.StatementNotHandledException(stmt)
 
-    elif isinstance(stmt, ast.Assign):
-        if len(stmt.targets) > 1:
-            raise exceptions.StatementNotHandledException(
-                stmt, f"too many targets {len(stmt.targets)}"
-            )
+    elif isinstance(stmt, (ast.Assign, ast.AnnAssign)):
+        if isinstance(stmt, ast.AnnAssign):
+            # target: T = value, the value is given the declared type T
+            if not isinstance(stmt.target, ast.Name) or stmt.value is None:
+                raise exceptions.StatementNotHandledException(
+                    stmt, "only name target with a value supported"
+                )
 
-        if not isinstance(stmt.targets[0], ast.Name):
-            raise exceptions.StatementNotHandledException(
-                stmt, "only name target supported"
-            )
+            target = stmt.target.id
+            ttype = translate_argument(stmt.annotation, env).ttype
+            tval, val = _typed_value(stmt.value, ttype, env)
+        else:
+            if len(stmt.targets) > 1:
+                raise exceptions.StatementNotHandledException(
+                    stmt, f"too many targets {len(stmt.targets)}"
+                )
 
-        target = stmt.targets[0].id
+            if not isinstance(stmt.targets[0], ast.Name):
+                raise exceptions.StatementNotHandledException(
+                    stmt, "only name target supported"
+                )
 
-        tval, val = translate_expression(stmt.value, env)  # TODO: typecheck
+            target = stmt.targets[0].id
+
+            tval, val = translate_expression(stmt.value, env)  # TODO: typecheck
 
         if len(get_args(tval)) > 0 and isinstance(val, list):
             # a tuple typed name evaluates to a flat list of bits: name the bits of
